@@ -204,8 +204,12 @@ def adoption(ctx, context, services_before=0, services_after=0, churn=False, fix
         time.sleep(0.02 * cycles + 0.05)  # further polling cycles: nothing may start twice
         alive = w.thread.is_alive()
         ctx.require(alive, "starting payloads and services does not end the runtime")
+        # what has started BEFORE the harness stops the runtime (a payload that only starts because the
+        # shutdown wakes its loop was not started by adopt)
+        frozen = (list(log), list(svc_log))
     finally:
         w.cleanup()
+    log, svc_log = frozen  # payload closures keep appending to the original lists; judge the frozen copies
     ctx.reach()
     ctx.observe("started", sorted(p for p, *_ in log))
     ctx.observe("services", sorted(s for s, _ in svc_log))
